@@ -318,27 +318,37 @@ Proof.
 Qed.
 
 (* decide_repack (limits, ordering, resize) only ever answers Keep or Repack *)
-Lemma repack_step_dec : forall o mr mu un rm s p,
-  (forall i t, In (i, t) (rs_dec s) -> t = Keep \/ t = Repack) ->
-  forall i t, In (i, t) (rs_dec (repack_step o mr mu un rm s p)) -> t = Keep \/ t = Repack.
+Lemma repack_step_dec : forall nr mr mu un rm s p,
+  (forall q t, In (q, t) (rs_dec s) -> t = Keep \/ t = Repack) ->
+  forall q t, In (q, t) (rs_dec (repack_step nr mr mu un rm s p)) -> t = Keep \/ t = Repack.
 Proof.
-  intros o mr mu un rm s p H i t. unfold repack_step.
-  destruct (_ || _ || _); cbn [rs_dec]; [intros [E|E]; [inv E; auto|eauto]|].
+  intros nr mr mu un rm s p H q t. unfold repack_step.
+  destruct (keep_cond _ _ _ _ _ _ _ _); cbn [rs_dec]; [intros [E|E]; [inv E; auto|eauto]|].
   destruct (reason_eqb _ SizeMismatch); destruct (pi_type (info_of p)); cbn [rs_dec]; eauto;
     intros [E|E]; [inv E; auto|eauto|inv E; auto|eauto].
+Qed.
+
+Lemma fold_repack_dec : forall nr mr mu un rm l s,
+  (forall q t, In (q, t) (rs_dec s) -> t = Keep \/ t = Repack) ->
+  forall q t, In (q, t) (rs_dec (fold_left (repack_step nr mr mu un rm) l s)) -> t = Keep \/ t = Repack.
+Proof.
+  induction l as [|a tl IH]; intros s Hs; cbn [fold_left]; [exact Hs|]. apply IH. apply repack_step_dec. exact Hs.
+Qed.
+
+Lemma repack_decisions_keep_or_repack : forall o ps q t,
+  In (q, t) (repack_decisions o ps) -> t = Keep \/ t = Repack.
+Proof.
+  intros o ps q t Hi. unfold repack_decisions in Hi.
+  apply in_app_or in Hi. destruct Hi as [Hi|Hi].
+  - unfold repack_loop in Hi. eapply fold_repack_dec; [|exact Hi]. intros q0 t0 [].
+  - apply in_app_or in Hi. destruct Hi as [Hi|Hi]; apply in_map_iff in Hi; destruct Hi as [j [E _]]; inv E;
+      unfold resize_todo; match goal with |- (if ?c then _ else _) = _ \/ _ => destruct c; auto end.
 Qed.
 
 Lemma decide_repack_keep_or_repack : forall o ps d,
   decide_repack o ps = Some d -> forall i t, In (i, t) d -> t = Keep \/ t = Repack.
 Proof.
-  intros o ps d H i t Hi. unfold decide_repack in H.
-  destruct (limit_unused o (size_used ps)) as [mu|]; [|discriminate]. inv H.
-  apply in_app_or in Hi. destruct Hi as [Hi|Hi].
-  - revert i t Hi. match goal with |- forall i t, In (i, t) (rs_dec (fold_left ?f ?l ?s0)) -> _ =>
-      assert (G : forall l0 s, (forall i t, In (i, t) (rs_dec s) -> t = Keep \/ t = Repack) ->
-                               forall i t, In (i, t) (rs_dec (fold_left f l0 s)) -> t = Keep \/ t = Repack) end.
-    { induction l0 as [|a tl IH]; intros s Hs; cbn [fold_left]; [exact Hs|]. apply IH. apply repack_step_dec. exact Hs. }
-    apply G. intros i t [].
-  - apply in_app_or in Hi. destruct Hi as [Hi|Hi]; apply in_map_iff in Hi; destruct Hi as [j [E _]]; inv E;
-      match goal with |- (if ?c then _ else _) = _ \/ _ => destruct c; auto end.
+  intros o ps d H i t Hi. unfold decide_repack in H. inv H.
+  apply in_map_iff in Hi. destruct Hi as [[q t'] [E Hq]]. cbn [fst snd] in E. inv E.
+  eapply repack_decisions_keep_or_repack; eauto.
 Qed.
